@@ -33,13 +33,17 @@ func (cdb *CachedDatabase) SearchWithOptionsAndCache(query string, options Searc
 
 	// Convert SearchOptions to cache.SearchOptions
 	cacheOptions := cache.SearchOptions{
-		Limit:          options.Limit,
-		ContextBoosts:  options.ContextBoosts,
-		PipelineOnly:   options.PipelineOnly,
-		PipelineBoost:  options.PipelineBoost,
-		UseFuzzy:       options.UseFuzzy,
-		FuzzyThreshold: options.FuzzyThreshold,
-		UseNLP:         options.UseNLP,
+		Limit:           options.Limit,
+		ContextBoosts:   options.ContextBoosts,
+		PipelineOnly:    options.PipelineOnly,
+		PipelineBoost:   options.PipelineBoost,
+		UseFuzzy:        options.UseFuzzy,
+		FuzzyThreshold:  options.FuzzyThreshold,
+		UseNLP:          options.UseNLP,
+		TopTermsCap:     options.TopTermsCap,
+		AllPlatforms:    options.AllPlatforms,
+		Platforms:       options.Platforms,
+		NoCrossPlatform: options.NoCrossPlatform,
 	}
 
 	// Try to get from cache first
